@@ -579,27 +579,31 @@ func (c *Ctx) checkContactOnlineOnlyWhenEnabled() {
 	if onF == nil || enF == nil {
 		return
 	}
-	// the reported state is the `*online` of the handler (a dereferenced *bool); the function that
-	// stores it may be procPresReq or a helper the body was moved into
+	// the reported state is whatever is stored that is not a constant (`*online` of the handler, or a
+	// plain bool where the pointer was replaced by a pair "known, value"); the function that stores
+	// it may be procPresReq or a helper the body was moved into. The constructor of a new record
+	// (both fields stored from parameters: addToPerSubs) is C10.4d's, not this rule's.
 	reported := func(v ssa.Value) bool {
-		u, ok := core.Strip(v).(*ssa.UnOp)
-		if !ok || u.Op.String() != "*" {
-			return false
+		_, isK := core.Strip(v).(*ssa.Const)
+		return !isK
+	}
+	isCtor := func(fn *ssa.Function) bool {
+		on, en := false, false
+		for _, st := range core.StoresToField(fn, onF) {
+			if _, ok := core.Strip(st.Val).(*ssa.Parameter); ok {
+				on = true
+			}
 		}
-		pt, ok := u.X.Type().Underlying().(*types.Pointer)
-		if !ok {
-			return false
+		for _, st := range core.StoresToField(fn, enF) {
+			if _, ok := core.Strip(st.Val).(*ssa.Parameter); ok {
+				en = true
+			}
 		}
-		b, ok := pt.Elem().Underlying().(*types.Basic)
-		if !ok || b.Kind() != types.Bool {
-			return false
-		}
-		_, isField := core.LoadedField(u)
-		return isField == nil
+		return on && en
 	}
 	n := 0
 	for _, fn := range c.P.ModFuncs {
-		if !core.InPkg(fn, "server") {
+		if !core.InPkg(fn, "server") || isCtor(fn) {
 			continue
 		}
 		for _, st := range core.StoresToField(fn, onF) {
@@ -620,5 +624,5 @@ func (c *Ctx) checkContactOnlineOnlyWhenEnabled() {
 				"the contact's record takes the reported online state although notifications from it are disabled: the contact is remembered as online while muted, and after the un-muting handshake the 'on' is dropped as 'no change' - the user never learns that the contact is online")
 		}
 	}
-	r.Check(n >= 1, rule, "stores of a reported state (*online) into perSubsData.online", "-", fmt.Sprintf("%d", n), "none: anchor lost")
+	r.Check(n >= 1, rule, "stores of a reported state into perSubsData.online of an existing record", "-", fmt.Sprintf("%d", n), "none: anchor lost")
 }
